@@ -80,21 +80,36 @@ def _tk():
     return _TK
 
 
-def impl_results(data: Any, bits: int, ncalls: int) -> list[int]:
+def impl_results(data: Any, bits: int, ncalls: int, via: str = 'ctor') -> list[int]:
     """Run the real Tokenizer `ncalls` times (or until it raises); encode as TokEnum.enc_results does.
     A foreign exception (anything that is not the tokenizer's TokenSyntaxError) is encoded as [4, ...] and never
     matches the model."""
     Tokenizer, TokenSyntaxError = _tk()
     try:
         with time_limit():
-            return _impl_results(Tokenizer, TokenSyntaxError, data, bits, ncalls)
+            return _impl_results(Tokenizer, TokenSyntaxError, data, bits, ncalls, via)
     except ImplTimeout:
-        note_hang('Tokenizer', (data if isinstance(data, str) else '<chunks>', _OPTS[bits], ncalls))
+        note_hang('Tokenizer', (data if isinstance(data, str) else '<chunks>', _OPTS[bits], ncalls, via))
         return list(HANG)
 
 
-def _impl_results(Tokenizer, TokenSyntaxError, data: Any, bits: int, ncalls: int) -> list[int]:
-    tk = Tokenizer(data, None, **_OPTS[bits])
+ALL_OPTS = 127
+
+
+def make_tokenizer(Tokenizer, data: Any, bits: int, via: str = 'ctor', filename: Any = None):
+    """A tokenizer with the option vector `bits`.  via='ctor': options passed to the constructor; via='attr': constructed with
+    EVERY option the other way round, then each option set through its public (documented, settable) attribute - an option that
+    is cached at construction time (a private attribute derived from it in __init__) then behaves as its opposite."""
+    if via == 'ctor':
+        return Tokenizer(data, filename, **_OPTS[bits])
+    tk = Tokenizer(data, filename, **_OPTS[bits ^ ALL_OPTS])
+    for k, v in _OPTS[bits].items():
+        setattr(tk, k, v)
+    return tk
+
+
+def _impl_results(Tokenizer, TokenSyntaxError, data: Any, bits: int, ncalls: int, via: str = 'ctor') -> list[int]:
+    tk = make_tokenizer(Tokenizer, data, bits, via)
     out: list[int] = []
     for _ in range(ncalls):
         try:
@@ -481,18 +496,36 @@ GT_WITNESS_BITS = [6, 127, 0, 89]
 
 
 def translate_get_token_trees(ck: Ck) -> bool:
-    """Gen/GtTrees_gen.v: the decision trees of Tokenizer._get_token / _handle_comment and the state census of the three
+    """(resets the census-only flag of an earlier run in this process)
+    Gen/GtTrees_gen.v: the decision trees of Tokenizer._get_token / _handle_comment and the state census of the three
     functions.  When the translator fails closed, invalid trees are written so that everything else still builds."""
     from translate import c02_gettoken
+    _CENSUS_ONLY.clear()
     ok = ck.translate('GtTrees_gen', c02_gettoken.translate)
     if not ok:
         ck.gen('GtTrees_gen', c02_gettoken.EMPTY_GEN, {'failed_closed': True})
-    return ok
+        return False
+    side = ck.extra.get('translated', {}).get('GtTrees_gen', {})
+    if side.get('trees_failed_closed'):
+        # the census was read, the trees were not: a named obligation of its own; the census obligations are still evaluated
+        ck.obligation('translate:get_token_trees', False, f'tree executor failed closed: {side["trees_failed_closed"]} (the state census was still read)')
+        ck.tie_broken.append(f'translator _get_token/_handle_comment trees: {side["trees_failed_closed"]}')
+        _CENSUS_ONLY.append(True)
+        return False
+    ck.obligation('translate:get_token_trees', True, '_get_token / _handle_comment executed into decision trees')
+    return True
+
+
+_CENSUS_ONLY: list[bool] = []      # set by translate_get_token_trees of this run: trees failed closed, census available
+CENSUS_OBLIGATIONS = ['tokenizer_class_binds_no_shared_data_attribute', 'tokenizer_functions_read_only_modelled_state',
+                      'tokenizer_functions_write_only_modelled_state', 'tokenizer_options_are_read_from_the_public_attribute_at_call_time']
 
 
 def get_token_tree_group(translated: bool, hs_rows: bool = False, next_char: bool = False, c02_property: bool = False) -> tuple | None:
     """(imports, obligations, name) for ck.instance_obligations / instance_obligations_parallel; None when the translator failed."""
     if not translated:
+        if _CENSUS_ONLY:      # the trees are invalid, the census is real: its obligations are evaluated on their own
+            return (GT_IMPORTS, {k: k for k in CENSUS_OBLIGATIONS}, 'gtinst')
         return None          # translate:GtTrees_gen is already a failed obligation; the invalid trees carry no information
     obs = {}
     if hs_rows:
@@ -510,6 +543,7 @@ def get_token_tree_group(translated: bool, hs_rows: bool = False, next_char: boo
         'tokenizer_class_binds_no_shared_data_attribute': 'tokenizer_class_binds_no_shared_data_attribute',
         'tokenizer_functions_read_only_modelled_state': 'tokenizer_functions_read_only_modelled_state',
         'tokenizer_functions_write_only_modelled_state': 'tokenizer_functions_write_only_modelled_state',
+        'tokenizer_options_are_read_from_the_public_attribute_at_call_time': 'tokenizer_options_are_read_from_the_public_attribute_at_call_time',
     })
     if next_char:
         obs['next_char_rows_are_the_model'] = 'next_char_rows_are_the_model'
@@ -525,6 +559,15 @@ def get_token_tree_obligations(ck: Ck, translated: bool, hs_rows: bool = False, 
     `res`: results of the group when it was already evaluated (in parallel with other groups)."""
     from harness.common import parse_coq_nested
     if not translated:
+        if _CENSUS_ONLY:
+            if res is None:
+                g = get_token_tree_group(False)
+                res = ck.instance_obligations(g[0], g[1], name=g[2])
+            if not all(res.get(n, True) for n in CENSUS_OBLIGATIONS):
+                side = ck.extra.get('translated', {}).get('GtTrees_gen', {})
+                cen = {k: v for k, v in side.get('state_census', {}).items() if v}
+                ck.tie_broken.append(f'state census of _get_token/_handle_comment/_handle_string: {cen}')
+                ck.notes.append(f'state census: {cen}')
         return
     if res is None:
         g = get_token_tree_group(translated, hs_rows, c02_property=c02_property)
@@ -562,3 +605,51 @@ def get_token_tree_obligations(ck: Ck, translated: bool, hs_rows: bool = False, 
     ck.extra['get_token_trees'] = {'differing_leaves': diffs[:16], 'witness_texts': wit}
     ck.notes.append(f'_get_token/_handle_comment: first differing leaf: {diffs[0] if diffs else None}; '
                     f'first text on which the trees and the model differ: {wit[0] if wit else "none up to length 3"}')
+
+
+# ------------------------------------------------------------------------------------------------ options set through the public attributes
+BITS_DEFAULT = 0b0000110      # string_parens + allow_escapes
+SYNTAX_ALPHA = ['"', '\\', 'n', '[', ']', '(', ')', '#', '/', '*', ':', '+', '\n', 'x', ' ']
+
+
+def _by_attribute_shard(bits: int) -> tuple[int, list]:
+    bad = []
+    cnt = 0
+    for w in strings_upto(SYNTAX_ALPHA, 3):
+        cnt += 1
+        a = impl_results(w, bits, len(w) + 2)
+        b = impl_results(w, bits, len(w) + 2, via='attr')
+        if a != b and len(bad) < 3:
+            bad.append((bits, w, a, b))
+    return cnt, bad
+
+
+def corr_options_by_attribute(ck: Any) -> None:
+    """The model takes the option vector as a parameter of every call (`get_token T o ...`); the class reads seven public,
+    documented, settable attributes.  Tie: a tokenizer whose options were set through the attributes after construction (every
+    option was the other way round in the constructor) gives the same trace as one that got them as constructor arguments - all
+    texts over a 15-character syntax alphabet up to length 3, for the default vector, each single-option change of it, all on,
+    all off and six random vectors (thorough: all 128)."""
+    if ck.thorough:
+        vecs = list(range(128))
+    else:
+        rng = ck.rng
+        vecs = sorted({BITS_DEFAULT, 0, 127} | {BITS_DEFAULT ^ (1 << i) for i in range(7)} | {rng.randrange(128) for _ in range(6)})
+    res = pool_map(_by_attribute_shard, vecs)
+    bad = [b for _, bs in res for b in bs]
+    n = sum(c for c, _ in res)
+    ck.count('options_by_attribute_cases', n)
+    ck.hist('correspondence', f'options by attribute vs by constructor: {len(vecs)} option vectors x texts up to length 3 over {len(SYNTAX_ALPHA)} characters', n)
+    detail = ''
+    if bad:
+        bits, w, a, b = bad[0]
+        opts = opts_of_bits(bits)
+        detail = (f'; first: text={w!r} options={ {k: v for k, v in opts.items()} } by constructor: {decode_results(a)} '
+                  f'set by attribute afterwards: {decode_results(b)}')
+        ck.extra['options_by_attribute_disagreements'] = [{'text': w, 'option_bits': bits, 'by_constructor': decode_results(a),
+                                                           'by_attribute': decode_results(b)} for bits, w, a, b in bad[:10]]
+        ck.tie_broken.append('a Tokenizer whose options are set through the public attributes after construction behaves differently from one '
+                             'that got them as constructor arguments (the model takes the options as a parameter of every call)')
+    ck.obligation('correspondence:options_by_attribute', not bad,
+                  f'Tokenizer(text, **opts) vs Tokenizer(text, **opposite) followed by setattr of every option: {n} cases '
+                  f'({len(vecs)} option vectors, token kind/value/line_num/_last_was_cr/error): ' + ('agree' if not bad else f'{len(bad)} disagreements (capped)' + detail))
